@@ -12,10 +12,12 @@ package main
 
 import (
 	"fmt"
+	"math"
 	"math/big"
 	"os"
 	"path/filepath"
 	"sort"
+	"strconv"
 	"strings"
 	"time"
 	"unicode"
@@ -1017,6 +1019,22 @@ func (g *c3Gen) sweeps() {
 		g.add(c3Arr([]int{1, 1, 1, 1, 1, 1, 1, 1, 1, 1, 1, 12}, big12), cf, fmt.Sprintf("kind=array rank=12 var=pretty:%v", pretty))
 		g.add(c3Arr([]int{3, 4}, big12), cf, fmt.Sprintf("kind=array rank=2 var=pretty:%v", pretty))
 	}
+	// arrays the reader or make-array can build but the grid above does not: rank 0 ((make-array '())),
+	// a dimension of size 0 (#2A(() ())), rank 1 through #1A
+	for _, pretty := range []bool{false, true} {
+		cf := def
+		cf.pretty = pretty
+		g.add(c3Arr([]int{}, []*c3Obj{c3I(7)}), cf, "kind=array rank=0")
+		g.add(c3List(c3Sym("x"), c3Arr([]int{}, []*c3Obj{c3I(7)})), cf, "kind=array rank=0 var=in-list")
+		g.add(c3Arr([]int{2, 0}, nil), cf, "kind=array rank=2 class=empty-dimension:2x0")
+		g.add(c3Arr([]int{0, 2}, nil), cf, "kind=array rank=2 class=empty-dimension:0x2")
+	}
+	// floats that are not finite (reachable: (exp 1000.0), (- (exp 1000.0) (exp 1000.0)))
+	for _, f := range []float64{math.Inf(1), math.Inf(-1), math.NaN()} {
+		name := strings.ToLower(strconv.FormatFloat(f, 'g', -1, 64))
+		g.add(c3Single(float32(f)), def, "kind=single-float class=not-finite:"+name)
+		g.add(c3Double(f), def, "kind=double-float class=not-finite:"+name)
+	}
 	// S8 floats of each format × readably
 	for _, readably := range []bool{true, false} {
 		cf := def
@@ -1076,6 +1094,19 @@ func c3Shapes() []*c3Obj {
 		c3Dotted(c3I(2), c3List(c3I(1))),
 		c3Dotted(c3Str("tail"), c3Sym("a")),
 		c3Dotted(c3Vec(c3I(1)), c3Sym("a")),
+		// vectors in lists in arrays in vectors; arrays as array elements
+		c3Arr([]int{1, 2}, []*c3Obj{c3List(c3Vec(c3I(1), c3List(c3Vec(b))), c3Sym("x")), c3Str("s")}),
+		c3Vec(c3Arr([]int{2, 1}, []*c3Obj{c3Vec(a, c3Vec()), c3Dotted(c3Vec(cc), b)}), c3List(c3Vec(c3Vec(c3Vec(a))))),
+		c3Arr([]int{2, 2}, []*c3Obj{c3Arr([]int{1, 2}, []*c3Obj{a, b}), c3Vec(), c3Nil(), c3Arr([]int{2, 1, 1}, []*c3Obj{c3I(1), c3I(2)})}),
+		// atoms longer than any margin between short ones
+		c3List(a, c3Str(strings.Repeat("long string ", 20)), b, c3Sym(strings.Repeat("long-symbol-", 18)), cc,
+			c3Int(new(big.Int).Lsh(big.NewInt(1), 700)), c3Sym(strings.Repeat("bar red ", 26)), c3Ratio(new(big.Int).Lsh(big.NewInt(1), 400), big.NewInt(3))),
+		c3List(c3List(c3List(c3Str(strings.Repeat("x", 210)), a), b), c3Vec(c3Str(strings.Repeat("y", 199)), cc)),
+		// a Tail that holds a list: slip prints and reads (a . (b c)) as it is
+		c3Dotted(c3List(b, cc), a),
+		c3Dotted(c3List(c3List(b), cc), a, c3Dotted(c3List(a), b)),
+		// floats of each format between other atoms
+		c3List(a, c3Single(1.5), c3Double(-2.5e-10), c3Vec(c3Double(1e21), c3Single(3.4028235e38)), c3Dotted(c3Double(0.1), c3Single(0))),
 	}
 }
 
@@ -1278,6 +1309,10 @@ func (g *c3Gen) randObj(depth int, floats bool) *c3Obj {
 		for tail == nil || tail.kind == "nil" {
 			tail = g.randLeaf(floats)
 		}
+		if r.Chance(15) {
+			// a Tail holding a proper list (slip keeps (a . (b c)) as it is)
+			tail = c3List(g.randLeaf(floats), tail)
+		}
 		return c3Dotted(tail, elems...)
 	case 3:
 		// a multi-dimensional array: rank 2..3, every dimension ≥ 1
@@ -1436,6 +1471,7 @@ func runC03(c *lib.Ctx) {
 		g.add(o, cf, "")
 	}
 	c03Run(c, g.cases, nSweep)
+	c03Floats(c, g)
 	c03Wire(c, g)
 }
 
@@ -1449,14 +1485,14 @@ func c03Run(c *lib.Ctx, cases []c3Case, nSweep int) {
 			continue
 		}
 		reqIdx[i] = len(reqs)
-		reqs = append(reqs, "print flat "+cs.cf.wire()+" "+cs.obj.term())
+		reqs = append(reqs, "print flat "+cs.cf.wire()+" "+cs.obj.modelTerm())
 	}
 	replies := c.Model(reqs)
 	// the model's own pretty text (evidence only: the layout policy is not constrained by the property)
 	var reqsP []string
 	for i, cs := range cases {
 		if reqIdx[i] >= 0 {
-			reqsP = append(reqsP, fmt.Sprintf("print pretty %s %d %s", cs.cf.wire(), cs.cf.margin, cs.obj.term()))
+			reqsP = append(reqsP, fmt.Sprintf("print pretty %s %d %s", cs.cf.wire(), cs.cf.margin, cs.obj.modelTerm()))
 		}
 	}
 	repliesP := c.Model(reqsP)
@@ -1597,7 +1633,7 @@ func c03Run(c *lib.Ctx, cases []c3Case, nSweep int) {
 			kText++
 			if a, detail := c3KCompare(cs, res, replies[reqIdx[i]], modelRead[[2]int{i, 0}], modelRead[[2]int{i, 1}]); a != "" {
 				detail["expected_from"] = "model:print (SlipVerif.Model.Printer)"
-				detail["relies_on"] = []string{"SlipVerif.Theorems.C03.print_read_roundtrip_partial"}
+				detail["relies_on"] = []string{"SlipVerif.Theorems.C03.print_read_roundtrip"}
 				report(a, detail)
 			} else {
 				kRead++
@@ -1622,7 +1658,7 @@ func c03Run(c *lib.Ctx, cases []c3Case, nSweep int) {
 	c.Ev.Coverage["lisp_level_roundtrips"] = lispChecked
 	c.Ev.Coverage["model_pretty_layout_identical"] = prettySame
 	c.Ev.Coverage["model_pretty_layout_different"] = prettyDiff
-	c.Ev.Coverage["rule"] = "case = (object, printer configuration); sweeps = boundary integers/ratios x base 2..36 x radix, one-character strings/characters/symbols over all ASCII and sampled Unicode, number-like / quoted symbol names x case, container shapes x pretty x margins, arrays/vectors x base x radix x array, floats of each format x readably (exhaustive, seed independent) + random nested objects x random configuration; every case is printed flat and pretty and read back (W), float-free cases are also compared with the model text and the model reader (K); non-trivial = has a container level or a boundary leaf (|n| >= 2^31, ratio, float, char outside [a-z0-9], symbol needing quoting, string with quote/backslash/non-printing); distinct by (configuration, object term)"
+	c.Ev.Coverage["rule"] = "case = (object, printer configuration); sweeps = boundary integers/ratios x base 2..36 x radix, one-character strings/characters/symbols over all ASCII and sampled Unicode, number-like / quoted symbol names x case, container shapes x pretty x margins, arrays/vectors x base x radix x array, floats of each format x readably, Tail holding a list, package-prefixed symbols, rank-0 / empty-dimension arrays, non-finite floats, nested vector/list/array shapes and atoms longer than the margin (exhaustive, seed independent) + random nested objects x random configuration; every case is printed flat and pretty and read back (W); every case in the model universe (finite floats by their shortest decimal included) is also compared with the model text and the model reader (K); float family: boundary and random bit patterns of single and double floats and listed long-float texts: codec hypothesis (shortest e-format text canonical, ParseFloat of it gives the same bits) and slip round trip under each *read-default-float-format*; non-trivial = has a container level or a boundary leaf (|n| >= 2^31, ratio, float, char outside [a-z0-9], symbol needing quoting, string with quote/backslash/non-printing); distinct by (configuration, object term)"
 }
 
 type c3Pending struct {
@@ -1633,11 +1669,35 @@ type c3Pending struct {
 	rank  int
 }
 
-// c3InModel: the object is in the model's universe (no floats, no empty-list object, no symbol
-// with cased non-ASCII letters).
+// c3InModel: the object is in the model's universe (finite floats by their shortest decimal; no
+// NaN / infinity, no empty-list object, no symbol with cased non-ASCII letters, no Tail holding a
+// list, no string or symbol that is not valid UTF-8, arrays of rank >= 2 without an empty dimension).
 func c3InModel(o *c3Obj) bool {
-	return !o.hasFloat() && !o.has(func(x *c3Obj) bool {
-		return x.kind == "elist" || x.kind == "sym" && c3CasedNonASCII(x.s)
+	return !o.has(func(x *c3Obj) bool {
+		if x.isFloat() {
+			_, _, _, _, ok := x.decimal()
+			return !ok
+		}
+		switch x.kind {
+		case "elist", "raw":
+			return true
+		case "sym":
+			return c3CasedNonASCII(x.s) || !utf8.ValidString(x.s)
+		case "str":
+			return !utf8.ValidString(x.s)
+		case "list":
+			return x.tail != nil && (x.tail.kind == "list" || x.tail.kind == "nil")
+		case "arr":
+			if len(x.dims) < 2 {
+				return true
+			}
+			for _, d := range x.dims {
+				if d == 0 {
+					return true
+				}
+			}
+		}
+		return false
 	})
 }
 
@@ -1682,7 +1742,7 @@ func c3KFails(c *lib.Ctx, cs c3Case) string {
 		return ""
 	}
 	res := c3Eval(cs)
-	reqs := []string{"print flat " + cs.cf.wire() + " " + cs.obj.term()}
+	reqs := []string{"print flat " + cs.cf.wire() + " " + cs.obj.modelTerm()}
 	n := 1
 	for _, t := range []string{res.flat, res.pretty} {
 		if t != "" && utf8.ValidString(t) {
@@ -1718,6 +1778,31 @@ func c03Replay(c *lib.Ctx) {
 		fmt.Printf("replay swank wire message %s\n  payload: %q\n  result : %q %s\n  expected: the message read back is equal to the message written\n", term, payload, aspect, observed)
 		if aspect != "" {
 			c.Report("replay", false, map[string]any{"term": term, "wire": true})
+		}
+		return
+	}
+	if ff, _ := rec["float_family"].(bool); ff {
+		obj, err := c3ParseTerm(term)
+		if err != nil {
+			fmt.Println("replay file has no usable term:", err)
+			return
+		}
+		x := obj.object()
+		text, class := c3Print(c3DefaultCfg(), x)
+		fmt.Printf("replay float %s\n  printed readably: %q %s\n", term, text, class)
+		bad := class != ""
+		for _, rdff := range c3FloatFormats {
+			back := c3ReadFloatText(text, rdff)
+			a := "condition " + back.class
+			if back.ok && back.count == 1 {
+				a = c3Compare(x, back.obj)
+			}
+			fmt.Printf("  read under *read-default-float-format* %-12s: %s (%s) %q\n", rdff, slip.ObjectString(back.obj), c3TypeOf(back.obj), a)
+			bad = bad || a != ""
+		}
+		fmt.Printf("  expected: the same float of type %s under every default format\n", c3TypeOf(x))
+		if bad {
+			c.Report("replay", false, map[string]any{"term": term, "float_family": true})
 		}
 		return
 	}
